@@ -1,12 +1,14 @@
 pub mod c01;
 pub mod c02;
 pub mod c03;
+pub mod c04;
 pub mod c06;
 pub mod c07;
 pub mod c08;
 pub mod c09;
 pub mod c10;
 pub mod common;
+pub mod rig;
 
 use crate::evidence::Ctx;
 
@@ -15,6 +17,7 @@ pub fn dispatch(ctx: &Ctx) -> Option<i32> {
         "C01" => c01_check(ctx),
         "C02" => c02_check(ctx),
         "C03" => c03_check(ctx),
+        "C04" => c04_check(ctx),
         "C06" => c06_check(ctx),
         "C07" => c07_check(ctx),
         "C08" => c08_check(ctx),
@@ -278,5 +281,25 @@ fn c08_check(ctx: &Ctx) -> i32 {
         min_nontrivial: ctx.tier.pick(300, 3000),
         extra: BTreeMap::new(),
     };
+    finish(ctx, agg, rep)
+}
+
+fn c04_check(ctx: &Ctx) -> i32 {
+    let budget = Duration::from_secs(ctx.tier.pick(35, 400));
+    let agg = shard_runs(ctx, "main", ctx.tier.pick(12_000, 600_000), budget, Duration::from_secs(30), Arc::new(c04::run_one));
+    let rep = Report {
+        level: "exploration",
+        rule: "one case = one channel history: kind in {base, mpsc with remote receiver, mpsc with remote sender (1-3 sender clones), lr, oneshot} over Connect::framed on the simulated network; 1-7 items per sender with encoded sizes around max_data_size (buffered vs streamed through the helper thread), chunk_size, receive_buffer and the sender/receiver max_item_size; failing items (serialisation error raised at the end of the item, sender limit, receiver limit, send cancelled at poll n) at random positions. Non-trivial iff >=1 item beyond the buffered/streamed boundary or a failed/cancelled item strictly inside the stream. Distinct by hash(kind, cfg classes, sizes, outcomes, interleaving signature).".into(),
+        explanation: "Per sender the received values must be intact (payload determined by id), in order, without duplicates, a prefix of that sender's successful sends (equality at a clean end of base/lr channels and of failure-free mpsc channels); failed or cancelled items must not be delivered; item failures must be non-final on base/lr; the receiver-side limit must hold; no send may be pending at quiescence.".into(),
+        assumptions: vec!["encoded size = payload length + <48 bytes (postbag codec); items within 48 bytes of the receiver limit may legitimately be refused".into(), "mpsc channels end at the first item-specific failure (documented and tested behaviour): only the prefix property is required after one".into()],
+        exhaustive: false,
+        min_nontrivial: ctx.tier.pick(300, 3000),
+        extra: BTreeMap::new(),
+    };
+    let mut agg = agg;
+    // a run that is stuck with all threads blocked (helper thread waiting for ever) is a violation of C04's liveness part
+    for (phase, run, seed) in agg.stuck.clone() {
+        agg.viols.push((phase, run, seed, crate::evidence::Viol { signature: "C04:stuck-helper-thread".into(), detail: "run did not reach quiescence: all threads of the shard blocked, progress counter frozen (OS-level quiescence)".into(), replay: serde_json::json!({"run": run, "seed": seed}) }));
+    }
     finish(ctx, agg, rep)
 }
